@@ -651,10 +651,12 @@ def free_cases(rng, tier):
         cs.append(vlib.Case("free_overload", "free threads=8 n=15000 lens=4000 roll=100000000 burst=0 quiesce=1 slow=30000", [], "free-running"))
         cs.append(vlib.Case("free_big1", "free threads=4 n=60000 lens=@500:4000:%d roll=20000000 burst=128 quiesce=0" % rng.randint(1, 9999), [], "free-running"))
     # several threads appending to ONE thread-safe LogFile (LogFile::append under its own mutex), rolling often
-    for i, (T, lens, roll, every) in enumerate([(4, "@1:300:%d" % rng.randint(1, 9999), 40000, 7), (3, "@10:4000:%d" % rng.randint(1, 9999), 60000, 1024),
-                                                (8, "@1:64:%d" % rng.randint(1, 9999), 9000, 1)][: 2 if tier == "quick" else 3]):
+    # (roll sizes are small: more files, and the model's file content is a list it appends to; the number of
+    # sections per case is bounded because the monitor model's history is a list it appends to)
+    for i, (T, lens, roll, every) in enumerate([(4, "@1:300:%d" % rng.randint(1, 9999), 8000, 7), (3, "@10:600:%d" % rng.randint(1, 9999), 12000, 1024),
+                                                (8, "@1:64:%d" % rng.randint(1, 9999), 3000, 1)][: 2 if tier == "quick" else 3]):
         cs.append(vlib.Case("lfree%d" % i, "lfree threads=%d n=%d lens=%s roll=%d flush=3 every=%d burst=%d now=86395 quiesce=1"
-                            % (T, n // 2, lens, roll, every, rng.choice([0, 8, 64])), [], "free-running"))
+                            % (T, min(n // 2, 3000), lens, roll, every, rng.choice([0, 8, 64])), [], "free-running"))
     return cs
 
 
